@@ -656,7 +656,9 @@ def _iter_unused_names(
         # (3) And group the code in the smallest possible sequences that will contain
         #     (directly or recursively) all references (set and get) of that name.
         name_node_sequences = {
-            name: sorted(mentions, key=lambda node: node.lineno)
+            # (lineno, col_offset): statements joined by ";" share a line, and mentions is a set of
+            # nodes whose iteration order depends on object addresses.
+            name: sorted(mentions, key=lambda node: (node.lineno, node.col_offset))
             for name, mentions in name_mentions.items()
             if name in names_defined_in_scope
         }
